@@ -34,7 +34,7 @@ EXPLANATION = (
     "application object ends in the system-error exit on every path; R15f every temporary file of a fix pass is "
     "removed or handed to the caller on every normal and exceptional path (CFG pairing with exception edges from "
     "the may-raise analysis); R15g the user's file is replaced atomically, never written in place; R15h the "
-    "'file was changed' flag survives a later fault; R15i/R15j (=R13b/R13c) per-file state of rules, manager and tokenizer is reset when a file starts, on every path, so a failing file cannot leak into the next one. Not decided: that an error message is helpful; behaviour under "
+    "'file was changed' flag survives a later fault; R15i/R15j (=R13b/R13c) per-file state of rules, manager and tokenizer is reset when a file starts, on every path, so a failing file cannot leak into the next one; R15k (=R18c) a failed file always outranks fixed/triggered in the final result; R15l a per-file function that reported an error returns the failure status on that path. Not decided: that an error message is helpful; behaviour under "
     "SIGKILL between two system calls other than the write-back itself; implicit IndexError/KeyError are internal "
     "errors routed through the catch-all handlers (C01/C07), not modelled as failure sources."
 )
@@ -209,6 +209,7 @@ class TempCheck:
         out = []
         for func in self.prog.iter_functions("pymarkdown."):
             temp_objs: Dict[str, bool] = {}  # name of the object -> delete=False ?
+            with_of: Dict[str, ast.AST] = {}
             for node in walk_local(func.node):
                 if isinstance(node, (ast.With, ast.AsyncWith)):
                     for item in node.items:
@@ -216,6 +217,7 @@ class TempCheck:
                         if isinstance(call, ast.Call) and (dotted(call.func) or "").endswith("NamedTemporaryFile") and isinstance(item.optional_vars, ast.Name):
                             keep = any(k.arg == "delete" and isinstance(k.value, ast.Constant) and k.value.value is False for k in call.keywords)
                             temp_objs[item.optional_vars.id] = keep
+                            with_of[item.optional_vars.id] = node
                 elif isinstance(node, ast.Assign) and isinstance(node.value, ast.Call) and (dotted(node.value.func) or "").endswith(("NamedTemporaryFile", "mkstemp")):
                     for target in node.targets:
                         if isinstance(target, ast.Name):
@@ -229,7 +231,8 @@ class TempCheck:
                         if isinstance(target, ast.Name):
                             path_vars[target.id] = temp_objs[node.value.value.id]
                             if temp_objs[node.value.value.id]:
-                                out.append((func, node, target.id, "NamedTemporaryFile(delete=False)"))
+                                creator = with_of.get(node.value.value.id, node)
+                                out.append((func, creator, target.id, "NamedTemporaryFile(delete=False)"))
             for node in walk_local(func.node):
                 if isinstance(node, (ast.With, ast.AsyncWith)):
                     for item in node.items:
@@ -278,30 +281,45 @@ class TempCheck:
                 for name in names:
                     if text == name or text == f"os.path.exists({name})" or text.startswith(f"{name} != ") or text.endswith(f" != {name}"):
                         vacuous_false.add(node.nid)
-        # search for a path from the acquisition to EXIT/RAISE that avoids releases and transfers
-        parent: Dict[int, Optional[int]] = {start: None}
-        queue = [start]
-        leak_end: Optional[int] = None
+        # search for a path from the acquisition to EXIT/RAISE that avoids releases and transfers; the
+        # state carries whether the path has already recorded the file's name in ``var`` (until then a
+        # test of ``var`` in a cleanup block is false and the cleanup is skipped)
+        name_nodes: Set[int] = set()
+        for node in cfg.nodes:
+            if node.kind == "stmt" and isinstance(node.ast_node, ast.Assign) and any(isinstance(t, ast.Name) and t.id in names for t in node.ast_node.targets):
+                name_nodes.add(node.nid)
+        starts_named = start in name_nodes or not isinstance(acquire, (ast.With, ast.AsyncWith)) or what.startswith(("open(", "handed over"))
+        parent: Dict[Tuple[int, bool], Optional[Tuple[int, bool]]] = {(start, starts_named): None}
+        queue = [(start, starts_named)]
+        leak_end: Optional[Tuple[int, bool]] = None
         while queue and leak_end is None:
-            cur = queue.pop(0)
+            cur, named = queue.pop(0)
             for dst, label in cfg.succ[cur]:
-                if cur == start and label == "exc" and not isinstance(acquire, (ast.With, ast.AsyncWith)):
-                    continue  # the assignment that records the name cannot fail
-                if cur in vacuous_false and label == "false":
+                if cur == start and label == "exc":
+                    continue  # the creating statement itself failing creates nothing
+                if cur in vacuous_false and label == "false" and named:
                     continue
-                if dst in releases or dst in parent:
+                if dst in releases and named:
                     continue
-                if dst in transfers:
+                if dst in transfers and named:
                     continue
-                parent[dst] = cur
+                state = (dst, named or dst in name_nodes)
+                if state in parent:
+                    continue
+                parent[state] = (cur, named)
                 if dst in (cfg.exit, cfg.raise_exit):
-                    leak_end = dst
+                    leak_end = state
                     break
-                queue.append(dst)
+                queue.append(state)
         key = f"{func.short}: temp file '{var}' ({what})"
         if leak_end is not None:
-            path = cfg.path_to(parent, leak_end)
-            kind = "exceptional" if leak_end == cfg.raise_exit else "normal"
+            path = []
+            cursor: Optional[Tuple[int, bool]] = leak_end
+            while cursor is not None:
+                path.append(cursor[0])
+                cursor = parent.get(cursor)
+            path.reverse()
+            kind = "exceptional" if leak_end[0] == cfg.raise_exit else "normal"
             self.rule.fail(
                 key, where(func, acquire),
                 f"temporary file held in '{var}' is neither removed nor handed to the caller on a(n) {kind} exit of {func.short}: "
@@ -413,6 +431,73 @@ def r15g(ctx: Context) -> None:
         raise AnalysisError("no write-back of the user's file found in the fix path (anchor moved)")
 
 
+def reported_means_failed(ctx: Context, rule_id: str = "R15l") -> None:
+    """A per-file function that reports an error for the file returns the failure status on that path."""
+    from sa.util import enumerate_paths, PathBudgetExceeded
+
+    prog = ctx.prog
+    rule = ctx.rule(rule_id, "a per-file function that reported an error returns 'failed' on that path", 2)
+    reporter = prog.method(FSH, "__handle_scan_error")
+    status_funcs = [f for f in common.status_functions(prog) if f in per_file_functions(prog)]
+    if len(status_funcs) < 2:
+        raise AnalysisError("per-file status functions not found")
+    for func in status_funcs:
+        cfg = CFG(func.node)  # calls, raise and assert may raise; a plain assignment cannot
+        success_index = None
+        rets = returns_of(func)
+        if rets and isinstance(rets[0], ast.Tuple):
+            success_index = len(rets[0].elts) - 1  # (did_fix, did_succeed)
+        reported_paths = 0
+        bad = None
+        try:
+            for path in enumerate_paths(cfg, loop_bound=1, budget=8000):
+                if path[-1][0] != cfg.exit:
+                    continue
+                values: Dict[str, object] = {}
+                reported = False
+                returned: object = None
+                for nid, label in path:
+                    node = cfg.nodes[nid]
+                    stmt = node.ast_node
+                    if stmt is None or node.kind != "stmt":
+                        continue
+                    for call in [c for c in ast.walk(stmt) if isinstance(c, ast.Call)]:
+                        site = site_for(prog, func, call)
+                        if site and reporter in site.targets:
+                            reported = True
+                    if isinstance(stmt, ast.Assign):
+                        for target in stmt.targets:
+                            for tgt, value, _ in Program._unpack(target, stmt.value):
+                                if isinstance(tgt, ast.Name):
+                                    values[tgt.id] = value.value if isinstance(value, ast.Constant) and isinstance(value.value, bool) else "?"
+                    if isinstance(stmt, ast.Return) and stmt.value is not None:
+                        expr = stmt.value
+                        if isinstance(expr, ast.Tuple) and success_index is not None and success_index < len(expr.elts):
+                            expr = expr.elts[success_index]
+                        if isinstance(expr, ast.Constant) and isinstance(expr.value, bool):
+                            returned = expr.value
+                        elif isinstance(expr, ast.Name):
+                            returned = values.get(expr.id, "?")
+                        else:
+                            returned = "?"
+                if not reported:
+                    continue
+                reported_paths += 1
+                if returned is True:
+                    bad = path
+                    break
+        except PathBudgetExceeded:
+            raise AnalysisError(f"{func.short}: too many paths")
+        key = f"{func.short}: status after a reported error"
+        if bad is not None:
+            steps = [cfg.describe(nid) for nid, _ in bad if cfg.nodes[nid].kind in ("handler", "stmt")][-8:]
+            rule.fail(key, where(func), f"a path through {func.short} reports an error for the file and then returns the success status: the failure cannot reach the exit code", steps)
+        elif reported_paths:
+            rule.ok(key, f"{reported_paths} error-reporting path(s), none returns success")
+        else:
+            rule.fail(key, where(func), f"{func.short} no longer reports per-file errors")
+
+
 def _relabel(ctx: Context, rule_id: str) -> None:
     ctx.rules[-1].rule_id = rule_id
     for finding in ctx.rules[-1].findings:
@@ -437,6 +522,12 @@ def run(ctx: Context) -> None:
     _relabel(ctx, "R15i")
     c13.r13c(ctx)
     _relabel(ctx, "R15j")
+    from sa.rules import c18
+
+    # "ends with the system-error result, never with a clean or 'fixed' result"
+    c18.r18c(ctx)
+    _relabel(ctx, "R15k")
+    reported_means_failed(ctx)
     if ctx.tier == "thorough":
         from sa.rules import driver_exploration
 
